@@ -61,6 +61,10 @@ CLAIMED = {
    text="Sequential family: generated call histories (<= 8 quick / 12 thorough) over {subscribe_i, unsubscribe_i, connect, disconnect, source emits, source terminal} with up to 3 subscribers (direct, map, take(1|2); sharing one Observable value or a fresh observable() each) on publish / ref_count / replay, over a hot instrumented source and over cold sources that emit synchronously inside connect / the first subscribe (incl. a subscriber leaving during the burst). Oracle: reference state machine for deliveries, source-subscription counter and is_subscribed liveness probe after every call (0 before connect, 1 while connected, never 2, 0 after disconnect / last leave, replay = full history once). Threaded family: the first subscribers arrive concurrently and later leave concurrently. Not asserted: reconnection of ref_count after zero, double connect.",
    technique='deterministic simulation: generated operation histories against an executable reference model + seeded interleavings of concurrent first subscribers',
    note="Reference model in harness/src/c13.rs. Sampling of the history space."),
+ 'C03': dict(level='exploration', design='5.3',
+   text="Stage-wise refinement: one judged combinator (merge, concat, zip, combine_latest, amb, sequence_equal, take_until, skip_until, sample, flat_map with cold and hot overlapping inner sources) with 1..4 inputs, each a scripted hot / cold / subject source or creation function optionally behind other operators, probes on every input edge (and on every inner observable of flat_map) and on the output edge, driven in generated sequential interleavings. The operator's reference model is evaluated on the recorded input histories (global arrival order, subscription instants) and must allow the recorded output; may-sets where the statement is silent. utils::ready_set_go has its own family. switch_on_next is exercised, not judged.",
+   technique='deterministic simulation (single driver task): generated arrival orders of several sources; per-operator executable reference models on recorded edge histories',
+   note="Reference models in harness/src/c03.rs (about 300 lines); the probe stage is written like the crate's own map. Sampling of scripts x interleavings."),
  # -- more claimed
 }
 NA = {
